@@ -166,7 +166,32 @@ func (fr *fileRewriter) stmtP(s ast.Stmt, mayPoint bool) {
 			fr.stmtList(c.(*ast.CaseClause).Body, false)
 		}
 	case *ast.SelectStmt:
-		// the communication of a select stays a real channel operation; its body is rewritten
+		// a select over exactly two plain receives (`case <-a:` / `case <-b:`, no default) becomes
+		// `switch vsched.Select2(a, b) { case 0: ...; case 1: ... }`; any other select stays a real one
+		var chans []ast.Expr
+		simple := len(x.Body.List) == 2
+		for _, c := range x.Body.List {
+			cc := c.(*ast.CommClause)
+			es, ok := cc.Comm.(*ast.ExprStmt)
+			if !ok {
+				simple = false
+				break
+			}
+			u, ok := es.X.(*ast.UnaryExpr)
+			if !ok || u.Op != token.ARROW {
+				simple = false
+				break
+			}
+			chans = append(chans, u.X)
+		}
+		if simple {
+			fr.usedSched = true
+			fr.edits = append(fr.edits, edit{fr.off(x.Pos()), fr.off(x.Body.Lbrace), fmt.Sprintf("switch vsched.Select2(%s, %s) ", fr.text(chans[0]), fr.text(chans[1]))})
+			for i, c := range x.Body.List {
+				cc := c.(*ast.CommClause)
+				fr.edits = append(fr.edits, edit{fr.off(cc.Pos()), fr.off(cc.Colon), fmt.Sprintf("case %d", i)})
+			}
+		}
 		for _, c := range x.Body.List {
 			fr.stmtList(c.(*ast.CommClause).Body, false)
 		}
@@ -361,7 +386,7 @@ func rewriteSched(repo, out string, fine bool, ov map[string]string) error {
 		return fmt.Errorf("no channel-typed struct fields found in simpledb: the rewrite rules no longer match the code")
 	}
 	shared := map[string]bool{"memStore": true, "readStore": true, "writeStore": true, "currentReader": true, "allSSTableReaders": true, "wal": true}
-	simports := map[string][2]string{"sync": {"sync", "verif/shim/vsync"}, "sync/atomic": {"atomic", "verif/shim/vatomic"}}
+	simports := map[string][2]string{"sync": {"sync", "verif/shim/vsync"}, "sync/atomic": {"atomic", "verif/shim/vatomic"}, "time": {"time", "verif/shim/vtime"}}
 	for _, f := range sfiles {
 		n, err := rewriteOne(f, filepath.Join(out, "simpledb_"+filepath.Base(f)), chans, shared, false, simports, ov)
 		if err != nil {
